@@ -10,11 +10,16 @@
         spec   := verdict of the reference lexer (`Spec.lexAll`) and its tokens (for `err`: the tokens before
                   the first lexical error); then the same for `Spec.lexAllLoose` (the other reading of D1–D3)
     B <e1> <e2> …             → <Model.blockStringValue>|<Spec.blockStringValue>   (values joined by ".")
+    D <bom 0|1> <item> …      a document layout (Layout.lean): items are trivia `s t c n r rn #:<body>` and lexemes
+                              `K<kind>:<text>:<value>` (code points joined by "."); trivia before the first lexeme is
+                              the leading trivia, trivia after a lexeme belongs to it
+      → <1|0 = Doc.WF decided in Lean>|<render, code points joined by ".">
     anything else             → bad-op
 -/
 import ApiFu.Common.Loop
 import ApiFu.C07.Model
 import ApiFu.C07.Spec
+import ApiFu.C07.Layout
 
 open ApiFu ApiFu.C07
 
@@ -28,6 +33,42 @@ def toksStr (ts : List Tok) : String := ",".intercalate (ts.map tokStr)
 def errsStr (es : List Err) : String := ",".intercalate (es.map fun e => s!"{e.line}:{e.col}")
 
 def parseNats (ws : List String) : Option (List Nat) := ws.mapM String.toNat?
+
+def parseDots (s : String) : Option (List Nat) :=
+  if s == "" then some [] else (s.splitOn ".").mapM String.toNat?
+
+def kindOfCode (n : Nat) : Option Kind :=
+  [Kind.invalid, .punctuator, .name, .intValue, .floatValue, .stringValue, .unicodeBOM, .whiteSpace,
+   .lineTerminator, .comment, .comma].find? (·.code == n)
+
+inductive DItem where
+  | triv (i : Layout.TItem)
+  | lex (x : Layout.Lexeme)
+
+def parseItem (w : String) : Option DItem :=
+  match w with
+  | "s" => some (.triv .space) | "t" => some (.triv .tab) | "c" => some (.triv .comma)
+  | "n" => some (.triv .lf) | "r" => some (.triv .cr) | "rn" => some (.triv .crlf)
+  | _ =>
+    match w.splitOn ":" with
+    | ["#", body] => (parseDots body).map fun b => .triv (.comment b)
+    | [k, text, value] =>
+      if k.startsWith "K" then
+        match (k.drop 1).toNat?.bind kindOfCode, parseDots text, parseDots value with
+        | some kind, some t, some v => some (.lex { kind := kind, text := t, value := v })
+        | _, _, _ => none
+      else none
+    | _ => none
+
+/-- Items → document: trivia up to the first lexeme leads, later trivia belongs to the lexeme before it. -/
+def buildDoc (bom : Bool) (items : List DItem) : Layout.Doc :=
+  let step := fun (acc : Layout.Trivia × List (Layout.Lexeme × Layout.Trivia)) (it : DItem) =>
+    match it, acc with
+    | .triv i, (lead, []) => (lead ++ [i], [])
+    | .triv i, (lead, (x, tr) :: rest) => (lead, (x, tr ++ [i]) :: rest)
+    | .lex x, (lead, body) => (lead, (x, []) :: body)
+  let (lead, body) := items.foldl step ([], [])
+  { bom := bom, lead := lead, body := body.reverse }
 
 def handle (line : String) : String :=
   match (line.splitOn " ").filter (· ≠ "") with
@@ -45,6 +86,13 @@ def handle (line : String) : String :=
         | .ok ts => ("ok", ts)
         | .error ts => ("err", ts)
       s!"{toksStr ts}|{errsStr es}|{verdict}|{toksStr sts}|{verdictL}|{toksStr stsL}"
+  | "D" :: bom :: ws =>
+    match ws.mapM parseItem with
+    | none => "bad-op"
+    | some items =>
+      if bom ≠ "0" ∧ bom ≠ "1" then "bad-op" else
+      let d := buildDoc (bom == "1") items
+      s!"{if decide d.WF then 1 else 0}|{natsStr "." (Layout.render d)}"
   | "B" :: ws =>
     match parseNats ws with
     | none => "bad-op"
